@@ -3,9 +3,13 @@
      driver <model> run <casefile>            print TRACE/HIST lines for the case's schedule
      driver <model> gen <casefile> <n> <seed> generate n random complete schedules for the program,
                                               print "SCHED ..." lines + coverage of model pcs *)
-open Xm
+module List = Stdlib.List
+module String = Stdlib.String
+open BinNums
+open Datatypes
+open Ev
 
-let rec pos_of_int i = if i = 1 then XH else if i land 1 = 1 then XI (pos_of_int (i lsr 1)) else XO (pos_of_int (i lsr 1))
+let rec pos_of_int i = if i = 1 then Coq_xH else if i land 1 = 1 then Coq_xI (pos_of_int (i lsr 1)) else Coq_xO (pos_of_int (i lsr 1))
 let n_of_int i = if i = 0 then N0 else Npos (pos_of_int i)
 let n_of_string s =
   (* decimal, up to 2^64-1 *)
@@ -13,10 +17,10 @@ let n_of_string s =
   let rec go (v : int64) = if Int64.equal v 0L then None else
     let lo = Int64.logand v 1L and rest = Int64.shift_right_logical v 1 in
     (match go rest with
-     | None -> Some XH
-     | Some p -> Some (if Int64.equal lo 1L then XI p else XO p)) in
+     | None -> Some Coq_xH
+     | Some p -> Some (if Int64.equal lo 1L then Coq_xI p else Coq_xO p)) in
   match go v with None -> N0 | Some p -> Npos p
-let rec int64_of_pos = function XH -> 1L | XO p -> Int64.shift_left (int64_of_pos p) 1 | XI p -> Int64.logor (Int64.shift_left (int64_of_pos p) 1) 1L
+let rec int64_of_pos = function Coq_xH -> 1L | Coq_xO p -> Int64.shift_left (int64_of_pos p) 1 | Coq_xI p -> Int64.logor (Int64.shift_left (int64_of_pos p) 1) 1L
 let int64_of_n = function N0 -> 0L | Npos p -> int64_of_pos p
 let string_of_n n = Printf.sprintf "%Lu" (int64_of_n n)
 let int_of_n n = Int64.to_int (int64_of_n n)
@@ -26,7 +30,7 @@ let rec int_of_nat = function O -> 0 | S n -> 1 + int_of_nat n
 let mo_name n = match int_of_n n with 0 -> "rlx" | 1 -> "cns" | 2 -> "acq" | 3 -> "rel" | 4 -> "acqrel" | 5 -> "sc" | _ -> "?"
 
 (* per-model naming of LNamed codes and operations *)
-type naming = { named : int -> string; opname : int -> string; resname : n list -> string }
+type naming = { named : int -> string; opname : int -> string; resname : coq_N list -> string }
 
 let loc_str nm = function
   | LNamed (c, off) -> let b = nm.named (int_of_n c) in if int_of_n off = 0 then b else b ^ "+" ^ string_of_n off
@@ -143,7 +147,8 @@ let gen_schedule inst (c : case) (rng : Random.State.t) (switch_pct : int) maxle
   List.rev !sched
 
 (* ---------------------------------------------------------------- chase deque *)
-let chase_inst (c : case) : Xm.state inst =
+let chase_inst (c : case) : ChaseDefs.state inst =
+  let open ChaseDefs in
   let cap = n_of_int (int_of_string (cfg_get c "capacity" "4")) in
   let pol = if cfg_get c "container" "growing" = "fixed" then Fixed cap else Growing (cap, n_of_string "2147483648") in
   let nm = {
@@ -151,14 +156,41 @@ let chase_inst (c : case) : Xm.state inst =
     opname = (function 0 -> "push" | 1 -> "pop" | 2 -> "steal" | _ -> "?");
     resname = (fun r -> match r with [a; x] when int_of_n a = 1 -> string_of_n x | [a] when int_of_n a = 1 -> "ok" | [a] when int_of_n a = 2 -> "empty" | _ -> "full");
   } in
-  { init = Xm.init pol;
+  { init = ChaseDefs.init pol;
     idle = (fun st t -> match st.th (nat_of_int t) with Idle -> true | _ -> false);
     start = (fun st t (name, args) ->
       let o = match name, args with
         | "push", [v] -> OPush (n_of_string v) | "pop", _ -> OPop | _ -> OSteal in
-      match Xm.step pol st (Start (nat_of_int t, o)) with Some (s', _) -> Some s' | None -> None);
-    step = (fun st t _ -> Xm.step pol st (Step (nat_of_int t)));
+      match ChaseDefs.step pol st (Start (nat_of_int t, o)) with Some (s', _) -> Some s' | None -> None);
+    step = (fun st t _ -> ChaseDefs.step pol st (Step (nat_of_int t)));
     pctag = (fun st t -> let p = st.th (nat_of_int t) in string_of_int (Obj.tag (Obj.repr p)) ^ (if Obj.is_int (Obj.repr p) then "i" ^ string_of_int (Obj.magic p : int) else ""));
+    nm }
+
+(* ---------------------------------------------------------------- seqlock *)
+let seqlock_inst (c : case) : SeqlockDefs.state inst =
+  let open SeqlockDefs in
+  let slots = n_of_int (int_of_string (cfg_get c "slots" "1")) in
+  let size = int_of_string (cfg_get c "size" "24") in
+  let words = nat_of_int ((size + 7) / 8) in
+  let nsize = n_of_int size in
+  let func = pat_func nsize words in
+  let v0 = pat_words nsize words N0 in
+  let nm = {
+    named = (function 0 -> "seq" | 1 -> "data" | _ -> "?");
+    opname = (function 0 -> "load" | 1 -> "store" | 2 -> "update" | _ -> "?");
+    resname = (fun r -> match r with [] -> "ok" | ws -> (match pat_find nsize words ws (nat_of_int 4096) N0 with Some v -> string_of_n v | None -> "torn"));
+  } in
+  (* inv lines print the operation's argument as the harness does (the value id, not its words) *)
+  let nm_inv = { nm with opname = nm.opname } in
+  ignore nm_inv;
+  { init = SeqlockDefs.init v0;
+    idle = (fun st t -> match st.th (nat_of_int t) with Idle -> true | _ -> false);
+    start = (fun st t (name, args) ->
+      let o = match name, args with
+        | "store", [v] -> OStore (n_of_string v, pat_words nsize words (n_of_string v)) | "update", [d] -> OUpdate (n_of_string d) | _ -> OLoad in
+      match SeqlockDefs.step slots words func st (Start (nat_of_int t, o)) with Some (s', _) -> Some s' | None -> None);
+    step = (fun st t _ -> SeqlockDefs.step slots words func st (Step (nat_of_int t)));
+    pctag = (fun st t -> let p = st.th (nat_of_int t) in if Obj.is_int (Obj.repr p) then "i" ^ string_of_int (Obj.magic p : int) else string_of_int (Obj.tag (Obj.repr p)));
     nm }
 
 let () =
@@ -184,4 +216,5 @@ let () =
     | _ -> prerr_endline "unknown command"; exit 2 in
   match model with
   | "chase" -> go (chase_inst c)
+  | "seqlock" -> go (seqlock_inst c)
   | _ -> prerr_endline ("unknown model " ^ model); exit 2
